@@ -201,13 +201,17 @@ def constStr (p : Prog) (idx : Nat) : Option Bytes :=
   | some (.str s) => some s
   | _ => none
 
+/-- The read-only pseudo-fields, as literal bytes (so that the kernel can compare them). -/
+def kwTYPE : Bytes := [84, 89, 80, 69]
+def kwNAME : Bytes := [78, 65, 77, 69]
+
 /-- `blockGet`. -/
 def blockGet (name : Bytes) (blocks : List Block) : Option Value :=
   match blocks with
   | [] => none
   | top :: _ =>
-    if name = str "TYPE" then some (.str top.typ)
-    else if name = str "NAME" then some (.str top.name)
+    if name = kwTYPE then some (.str top.typ)
+    else if name = kwNAME then some (.str top.name)
     else
       let rec look : List Block → Option Value
         | [] => none
